@@ -26,8 +26,8 @@ import warnings
 from .choices import Choices, mix
 
 VERIF_DIR = os.path.dirname(os.path.dirname(os.path.abspath(__file__)))
-EVIDENCE_DIR = os.path.join(VERIF_DIR, "evidence")
-REPLAY_DIR = os.path.join(VERIF_DIR, "replays")
+EVIDENCE_DIR = os.environ.get("VERIF_EVIDENCE_DIR") or os.path.join(VERIF_DIR, "evidence")
+REPLAY_DIR = os.environ.get("VERIF_REPLAY_DIR") or os.path.join(VERIF_DIR, "replays")
 KNOWN_FILE = os.path.join(VERIF_DIR, "known_findings.json")
 
 
@@ -80,6 +80,9 @@ def safe_run(check, case):
         res.setdefault("violations", [])
         res.setdefault("stats", {})
         res.setdefault("keys", {})
+        if "event_digest" not in res:
+            # result digest + every simulation counter (yield points, switches, jobs, solver calls ...)
+            res["event_digest"] = digest([res.get("digest"), sorted(res["stats"].items())])
         return res
     except _sched.HarnessError as e:
         return {"harness_error": f"{type(e).__name__}: {e}", "violations": [], "stats": {}, "keys": {}}
